@@ -262,6 +262,8 @@ func checkScore(w *load.World, c *core.Collector, f *ssa.Function, key string, w
 
 func Rank(w *load.World, c *core.Collector) {
 	rankVamana(w, c)
+	vamanaClassification(w, c)
+	vamanaSeedWindow(w, c)
 	rankFlat(w, c)
 	rankText(w, c)
 }
@@ -907,4 +909,363 @@ func sliceHoldsCachedSet(v ssa.Value, seen map[ssa.Value]bool, depth int) bool {
 		}
 	}
 	return false
+}
+
+// -------------------------------------------------------------------- QDIST
+//
+// A quantised vector store keeps, per point, the full vector until the
+// quantiser is fitted and a code afterwards; points written before a restart
+// come back with the code only. Every distance closure handed out by the store
+// therefore works on exactly one representation. A closure that reads both the
+// full vector and the code of the same point makes the reported distance depend
+// on what happens to be cached (C04: warm = cold; C08).
+func QDist(w *load.World, c *core.Collector) {
+	props := []string{"C04", "C08"}
+	n := 0
+	for _, f := range w.Fns {
+		if load.PkgPath(f) != load.Mod+"/shard/vectorstore" || f.Parent() == nil {
+			continue
+		}
+		top := f
+		for top.Parent() != nil {
+			top = top.Parent()
+		}
+		if !strings.HasPrefix(top.Name(), "DistanceFrom") || top.Signature.Recv() == nil {
+			continue
+		}
+		reads := map[string]map[string]bool{} // point type -> fields read
+		for _, b := range f.Blocks {
+			for _, in := range b.Instrs {
+				var tn, fld string
+				switch x := in.(type) {
+				case *ssa.FieldAddr:
+					tn, fld = ssax.TypeName(x.X.Type()), ssax.StructOf(x.X.Type()).Field(x.Field).Name()
+				case *ssa.Field:
+					tn, fld = ssax.TypeName(x.X.Type()), ssax.StructOf(x.X.Type()).Field(x.Field).Name()
+				default:
+					continue
+				}
+				if !strings.HasSuffix(tn, "QuantizedPoint") {
+					continue
+				}
+				if reads[tn] == nil {
+					reads[tn] = map[string]bool{}
+				}
+				reads[tn][fld] = true
+			}
+		}
+		for tn, fs := range reads {
+			n++
+			key := fmt.Sprintf("one-representation:%s", load.FnKey(f))
+			var codes []string
+			for fld := range fs {
+				if fld != "Vector" && fld != "id" && fld != "isDirty" {
+					codes = append(codes, fld)
+				}
+			}
+			if fs["Vector"] && len(codes) > 0 {
+				c.Add("QDIST", key, core.Violation, w.Position(f.Pos()), fmt.Sprintf("this distance function reads both the full vector and the quantised code %v of a %s: the distance reported for a point depends on whether its full vector is still cached, so warm and cold answers differ", codes, tn), props...)
+			} else {
+				c.Add("QDIST", key, core.OK, w.Position(f.Pos()), "", props...)
+			}
+		}
+	}
+	c.Count("quantised_distance_closures", n)
+	if n < 6 {
+		c.Add("QDIST", "anchor:closures", core.Undecided, "", fmt.Sprintf("found %d distance closures over quantised points, expected at least 6", n), props...)
+	}
+}
+
+// ----------------------------------------------------- vamana classification
+//
+// The graph index sorts every incoming change into insert / update / delete by
+// (does the node exist, does the change carry a vector). The walk below follows
+// every path of that closure keeping the answers to those two questions fixed
+// (the source re-asks them in every case) and requires: a vector for an existing
+// node is queued as an update, a vector for a new node is forwarded to the insert
+// workers, no vector for an existing node is queued as a delete. A path that
+// drops such a change (skip without queueing) leaves the graph with the old
+// vector or a ghost node.
+func vamanaClassification(w *load.World, c *core.Collector) {
+	props := []string{"C03", "C10"}
+	var f *ssa.Function
+	if top := findFn(w, "(*shard/index/vamana.IndexVamana).insertUpdateDelete"); top != nil {
+		for _, a := range top.AnonFuncs {
+			res := a.Signature.Results()
+			if res.Len() == 3 && ssax.TypeName(res.At(0).Type()) == "vamana.IndexVectorChange" {
+				f = a
+			}
+		}
+	}
+	if f == nil {
+		c.Add("RANK", "anchor:vamana-classification", core.Undecided, "", "the classification closure of IndexVamana.insertUpdateDelete was not found", props...)
+		return
+	}
+	var exists ssa.Value
+	for _, b := range f.Blocks {
+		for _, in := range b.Instrs {
+			if call, ok := in.(*ssa.Call); ok && call.Call.IsInvoke() && call.Call.Method.Name() == "Exists" {
+				exists = call
+			}
+		}
+	}
+	if exists == nil {
+		c.Add("RANK", "vamana:classification", core.Undecided, w.Position(f.Pos()), "no existence test found in the classification closure", props...)
+		return
+	}
+	// condition -> (fact, value on the true edge)
+	factOf := func(cond ssa.Value) (string, bool, bool) {
+		neg := false
+		if u, ok := cond.(*ssa.UnOp); ok && u.Op == token.NOT {
+			cond, neg = u.X, true
+		}
+		if cond == exists {
+			return "exists", !neg, true
+		}
+		if bo, ok := cond.(*ssa.BinOp); ok && (bo.Op == token.EQL || bo.Op == token.NEQ) {
+			other := bo.X
+			if ssax.IsNilConst(bo.X) {
+				other = bo.Y
+			} else if !ssax.IsNilConst(bo.Y) {
+				return "", false, false
+			}
+			p, _ := ssax.Path(other)
+			if strings.HasSuffix(strings.TrimSuffix(p, "*"), ".Vector") && strings.Contains(p, "point") || strings.HasSuffix(strings.TrimSuffix(p, "*"), ".Vector") {
+				hasVec := bo.Op == token.NEQ
+				if neg {
+					hasVec = !hasVec
+				}
+				return "vector", hasVec, true
+			}
+		}
+		return "", false, false
+	}
+	elemOfAppend := func(in ssa.Instruction) string {
+		call, ok := in.(*ssa.Call)
+		if !ok {
+			return ""
+		}
+		bi, ok := call.Call.Value.(*ssa.Builtin)
+		if !ok || bi.Name() != "append" {
+			return ""
+		}
+		sl, ok := call.Type().Underlying().(*types.Slice)
+		if !ok {
+			return ""
+		}
+		if ssax.TypeName(sl.Elem()) == "vamana.IndexVectorChange" {
+			return "update"
+		}
+		if bt, ok := sl.Elem().Underlying().(*types.Basic); ok && bt.Kind() == types.Uint64 {
+			return "delete"
+		}
+		return ""
+	}
+	type pstate struct {
+		facts   map[string]bool
+		effects map[string]bool
+		choice  map[*ssa.Phi]ssa.Value
+	}
+	clone := func(s pstate) pstate {
+		n := pstate{map[string]bool{}, map[string]bool{}, map[*ssa.Phi]ssa.Value{}}
+		for k, v := range s.facts {
+			n.facts[k] = v
+		}
+		for k, v := range s.effects {
+			n.effects[k] = v
+		}
+		for k, v := range s.choice {
+			n.choice[k] = v
+		}
+		return n
+	}
+	var problems []string
+	nPaths := 0
+	var walk func(b, pred *ssa.BasicBlock, st pstate, depth int)
+	walk = func(b, pred *ssa.BasicBlock, st pstate, depth int) {
+		if depth > 60 {
+			return
+		}
+		for _, in := range b.Instrs {
+			if phi, ok := in.(*ssa.Phi); ok {
+				for i, p := range b.Preds {
+					if p == pred {
+						st.choice[phi] = phi.Edges[i]
+					}
+				}
+			}
+			if e := elemOfAppend(in); e != "" {
+				st.effects[e] = true
+			}
+			if ret, ok := in.(*ssa.Return); ok {
+				resolve := func(v ssa.Value) ssa.Value {
+					for i := 0; i < 6; i++ {
+						if phi, ok := v.(*ssa.Phi); ok {
+							if e, ok := st.choice[phi]; ok {
+								v = e
+								continue
+							}
+						}
+						break
+					}
+					return v
+				}
+				if len(ret.Results) == 3 {
+					if ev := resolve(ret.Results[2]); !ssax.IsNilConst(ev) {
+						return // error path
+					}
+				}
+				nPaths++
+				skip, isC := ssax.ConstBool(resolve(ret.Results[1]))
+				ex, exKnown := st.facts["exists"]
+				vec, vecKnown := st.facts["vector"]
+				if !exKnown || !vecKnown {
+					return
+				}
+				switch {
+				case ex && vec && !st.effects["update"]:
+					problems = append(problems, "a change that carries a vector for an existing node can leave the closure without being queued as an update (at "+w.At(ret)+"): the graph keeps the old vector")
+				case !ex && vec && !(isC && !skip):
+					problems = append(problems, "a change that carries a vector for a new node is not forwarded to the insert workers")
+				case ex && !vec && !st.effects["delete"]:
+					problems = append(problems, "a change without a vector for an existing node is not queued as a delete")
+				}
+				return
+			}
+		}
+		switch last := b.Instrs[len(b.Instrs)-1].(type) {
+		case *ssa.Jump:
+			walk(b.Succs[0], b, st, depth+1)
+		case *ssa.If:
+			if fact, onTrue, ok := factOf(last.Cond); ok {
+				if known, have := st.facts[fact]; have {
+					if known == onTrue {
+						walk(b.Succs[0], b, clone(st), depth+1)
+					} else {
+						walk(b.Succs[1], b, clone(st), depth+1)
+					}
+					return
+				}
+				t, e := clone(st), clone(st)
+				t.facts[fact] = onTrue
+				e.facts[fact] = !onTrue
+				walk(b.Succs[0], b, t, depth+1)
+				walk(b.Succs[1], b, e, depth+1)
+				return
+			}
+			walk(b.Succs[0], b, clone(st), depth+1)
+			walk(b.Succs[1], b, clone(st), depth+1)
+		}
+	}
+	walk(f.Blocks[0], nil, pstate{map[string]bool{}, map[string]bool{}, map[*ssa.Phi]ssa.Value{}}, 0)
+	switch {
+	case nPaths < 4:
+		c.Add("RANK", "vamana:classification", core.Undecided, w.Position(f.Pos()), fmt.Sprintf("only %d success paths found in the classification closure", nPaths), props...)
+	case len(problems) > 0:
+		c.Add("RANK", "vamana:classification", core.Violation, w.Position(f.Pos()), strings.Join(dedupeSorted(problems), "; "), props...)
+	default:
+		c.Add("RANK", "vamana:classification", core.OK, w.Position(f.Pos()), fmt.Sprintf("%d paths", nPaths), props...)
+	}
+}
+
+// vamanaSeedWindow: with a pre-filter, greedy search seeds its search set with filter members; the
+// exactness promise for small filters ("at most searchSize members") needs at least searchSize seeds.
+// The loop that draws ids from the filter's iterator is found by its Next() call; its counting guard,
+// normalised to "count < bound", must have bound >= searchSize (the parameter itself, no negative offset).
+func vamanaSeedWindow(w *load.World, c *core.Collector) {
+	props := []string{"C03"}
+	gs := findFn(w, "(*shard/index/vamana.IndexVamana).greedySearch")
+	if gs == nil || len(gs.Params) < 4 {
+		return
+	}
+	// the search-size parameter: the int parameter that bounds NewDistSet of the search set (3rd int param by position)
+	var ints []*ssa.Parameter
+	for _, p := range gs.Params {
+		if bt, ok := p.Type().Underlying().(*types.Basic); ok && bt.Kind() == types.Int {
+			ints = append(ints, p)
+		}
+	}
+	if len(ints) < 2 {
+		c.Add("RANK", "vamana:seed-window", core.Undecided, w.Position(gs.Pos()), "search-size parameter not identified", props...)
+		return
+	}
+	size := ints[1] // (query, k, searchSize, filter): second int
+	var nextBlk *ssa.BasicBlock
+	for _, b := range gs.Blocks {
+		for _, in := range b.Instrs {
+			if call, ok := in.(*ssa.Call); ok && call.Call.IsInvoke() && call.Call.Method.Name() == "Next" && inLoop(b) {
+				nextBlk = b
+			}
+		}
+	}
+	if nextBlk == nil {
+		c.Add("RANK", "vamana:seed-window", core.Undecided, w.Position(gs.Pos()), "the loop that draws seeds from the filter was not found", props...)
+		return
+	}
+	// affine form  size*n + c  of a value
+	var lin func(v ssa.Value, depth int) (n int, cst int64, ok bool)
+	lin = func(v ssa.Value, depth int) (int, int64, bool) {
+		if depth > 6 {
+			return 0, 0, false
+		}
+		if v == ssa.Value(size) {
+			return 1, 0, true
+		}
+		if k, ok := ssax.ConstInt(v); ok {
+			return 0, k, true
+		}
+		if bo, ok := v.(*ssa.BinOp); ok && (bo.Op == token.ADD || bo.Op == token.SUB) {
+			n1, c1, ok1 := lin(bo.X, depth+1)
+			n2, c2, ok2 := lin(bo.Y, depth+1)
+			if ok1 && ok2 {
+				if bo.Op == token.ADD {
+					return n1 + n2, c1 + c2, true
+				}
+				return n1 - n2, c1 - c2, true
+			}
+		}
+		return 0, 0, false
+	}
+	found := false
+	for _, b := range gs.Blocks {
+		if !(ssax.Reaches(b, nextBlk) && ssax.Reaches(nextBlk, b)) {
+			continue
+		}
+		ifi, ok := b.Instrs[len(b.Instrs)-1].(*ssa.If)
+		if !ok {
+			continue
+		}
+		bo, ok := ifi.Cond.(*ssa.BinOp)
+		if !ok {
+			continue
+		}
+		n, k, okB := lin(bo.Y, 0)
+		op := bo.Op
+		if !okB || n == 0 {
+			// bound on the left?
+			n, k, okB = lin(bo.X, 0)
+			if !okB || n == 0 {
+				continue
+			}
+			op = map[token.Token]token.Token{token.LSS: token.GTR, token.GTR: token.LSS, token.LEQ: token.GEQ, token.GEQ: token.LEQ}[op]
+		}
+		found = true
+		eff := k
+		switch op {
+		case token.LSS:
+		case token.LEQ:
+			eff = k + 1
+		default:
+			c.Add("RANK", "vamana:seed-window", core.Undecided, w.At(ifi), "the seeding loop's guard is not of the form count < bound", props...)
+			return
+		}
+		if n == 1 && eff >= 0 {
+			c.Add("RANK", "vamana:seed-window", core.OK, w.At(ifi), "", props...)
+		} else {
+			c.Add("RANK", "vamana:seed-window", core.Violation, w.At(ifi), fmt.Sprintf("the search is seeded with at most searchSize%+d filter members: a filter with exactly searchSize members loses one of them, which can be the nearest", eff), props...)
+		}
+	}
+	if !found {
+		c.Add("RANK", "vamana:seed-window", core.Undecided, w.Position(gs.Pos()), "the seeding loop has no guard that compares a count with the search size", props...)
+	}
 }
